@@ -76,12 +76,22 @@ Proof.
   intros evs. apply (prun_inv evs pinit). split; [constructor|constructor].
 Qed.
 
+Lemma nodup_app_l {A} : forall a b : list A, NoDup (a ++ b) -> NoDup a.
+Proof.
+  induction a as [|x a IH]; intros b H; [constructor|]. simpl in H. inversion H as [|? ? NI ND]; subst.
+  constructor; [intro I; apply NI, in_or_app; left; exact I|eapply IH; exact ND].
+Qed.
+Lemma nodup_app_r {A} : forall a b : list A, NoDup (a ++ b) -> NoDup b.
+Proof.
+  induction a as [|x a IH]; intros b H; [exact H|]. simpl in H. inversion H; subst. apply IH; assumption.
+Qed.
+
 Corollary held_distinct : forall evs r1 o1 r2 o2 h1 h2 h3,
   held (prun puts evs) = h1 ++ (r1, o1) :: h2 ++ (r2, o2) :: h3 -> o1 <> o2.
 Proof.
   intros evs r1 o1 r2 o2 h1 h2 h3 H E. subst o2.
   pose proof (pool_exclusive evs) as ND. rewrite H in ND.
-  apply NoDup_app_remove_r in ND. rewrite map_app in ND. apply NoDup_app_remove_l in ND.
+  apply nodup_app_l in ND. rewrite map_app in ND. apply nodup_app_r in ND.
   simpl in ND. inversion ND as [|? ? NI _]; subst. apply NI.
   rewrite map_app. apply in_or_app; right; left; reflexivity.
 Qed.
